@@ -668,7 +668,9 @@ def oracle_C12(L, K, lines, steps, spec):
                     v.append("step %d %s: element %d shares block %d with vector %d" % (i, sp["op"], s, oe["bid"], vs))
         for s in st.get("enull", []):
             ae = sp["eslots"].get(s)
-            if ae is not None and not ae["null"]:
+            # (an element without any bytes - every fixed size zero - owns a block of zero
+            # units, which an allocator may represent by a null pointer)
+            if ae is not None and not ae["null"] and any(len(f) for f in ae["t"]):
                 v.append("step %d %s: element %d lost its memory" % (i, sp["op"], s))
         if sp["op"] in ("ecmpe", "ecmpr") and "cmps" in st:
             a = sp["args"]
